@@ -1597,7 +1597,13 @@ def _numeric_pow_callers(F, s, e):
     target = F.find(CORE, "types::numeric::Numeric::pow")
     callers = sorted(set(F.fns[a].path for a, bs in G.edges.items() if target.id in bs and a != target.id))
     allowed = {"types::number::Number::powi", "loader::load::eval_prefix", "types::number::Number::prettify", "runtime::eval::eval_unit_name"}
-    bad = [c for c in callers if c not in allowed]
+    # (a private helper all of whose callers are an allowed caller is that caller's code)
+    def ok_caller(c):
+        if c in allowed:
+            return True
+        gs = [g for g in F.by_crate[CORE] if g.path == c]
+        return len(gs) == 1 and bool(set(G.owner_chain(gs[0])) & allowed)
+    bad = [c for c in callers if not ok_caller(c)]
     if bad:
         return False, "Numeric::pow is also called from %s" % bad
     # Number::pow: strict magnitude gate and zero-base test before powi
@@ -1672,9 +1678,14 @@ def exponent_not_min(F, fn, bb):
     """The i32 exponent argument of the Numeric::pow call in block bb cannot be i32::MIN: a constant, a value behind a
     dominating `!= i32::MIN` test, the payload of an Option::filter whose closure is `x != i32::MIN`, or (Number::powi)
     a parameter whose every caller passes such a value / sits behind Number::pow's strict magnitude gate."""
-    import re
     t = fn.blocks[bb]["term"]
-    ap = fn.apath(t["args"][1])
+    return value_not_min(F, fn, bb, t["args"][1])
+
+
+def value_not_min(F, fn, bb, operand, depth=0):
+    """The i32 operand, as used in block bb of fn, cannot be i32::MIN (see exponent_not_min)."""
+    import re
+    ap = fn.apath(operand)
     txt = ap_str(ap)
     if ap[0][0] == "const":
         return (ap[0][1] != I32_MIN), "constant %s" % ap[0][1]
@@ -1719,6 +1730,9 @@ def exponent_not_min(F, fn, bb):
                 if _magnitude_gate(F, Site(cf, cb, "call", "powi", cf.blocks[cb]["term"], False), {})[0]:
                     continue
                 if cf.path == "algorithms::fast_decompose::fast_decompose" and _only_literal_exponents(F, cf):
+                    continue
+                # the caller's own argument, judged where the caller passes it (a private helper hands its parameter on)
+                if depth < 3 and value_not_min(F, cf, cb, cf.blocks[cb]["term"]["args"][k - 1], depth + 1)[0]:
                     continue
                 return False, "caller %s passes %s" % (cf.path, ap_str(cap)[:80])
         return True, "every caller passes a constant or sits behind the strict magnitude gate"
